@@ -181,6 +181,13 @@ func (g *vbGen) staticPrefix(k int, lens []int) string {
 	return p.String()
 }
 
+// vbPref64Len returns the canonical (masked) prefix of the given length under a fixed address with
+// no zero byte, so that every length 0..128 yields a distinct, host-bit-free CIDR.
+func vbPref64Len(bits int) string {
+	a := netip.MustParseAddr("2001:db8:1234:5678:9abc:def1:2345:6789")
+	return netip.PrefixFrom(a, bits).Masked().String()
+}
+
 var vbNames = []string{"example.com", "lan", "corp.example.net", "a.b.c.d.e.f", "x-1.example.org", "home.arpa", "very-long-label-0123456789012345678901234567890123456789.example"}
 
 // toml renders one advertising interface.
@@ -469,8 +476,16 @@ func (g *vbGen) toml() string {
 			g.tag("pref64:default")
 		case x < 35:
 			kv("prefix", vbQ("64:ff9b::/96"))
-		case x < 92:
+		case x < 80:
 			kv("prefix", vbQ(g.staticPrefix(base+i, []int{96, 64, 56, 48, 40, 32})))
+		case x < 92:
+			// every prefix length 0..128, canonical address for that length (the encoder knows six)
+			bits := r.Intn(129)
+			kv("prefix", vbQ(g.staticPrefix(base+i, []int{bits})))
+			g.tag("pref64:any-length")
+			if bits%8 == 0 && bits >= 32 && bits <= 96 {
+				g.tag("pref64:octet-length-32..96")
+			}
 		case x < 96:
 			kv("prefix", vbQ(g.staticPrefix(base+i, []int{95, 97, 50, 128, 33, 31, 0, 8})))
 			g.tag("pref64:bad-length")
